@@ -6,7 +6,10 @@ EXTRA (a change whose clause is decided by another property's check)."""
 import json, os, re, subprocess, sys, time
 
 V = os.path.dirname(os.path.dirname(os.path.abspath(__file__)))
-EXTRA = {"C03b": ["C12"], "C06": ["C01"], "C11": ["C09"]}
+EXTRA = {"C03b": ["C12"], "C06": ["C01"], "C11": ["C09"], "C11c": ["C10"]}
+# seeded changes that no longer break the property on the current tree (their own demonstration passes with the
+# patch applied): the repair named here removed the condition they relied on. The check must be silent for them.
+NEUTRALISED = {"C09b": "a3d9db0", "C13": "a3d9db0"}
 
 
 def main():
@@ -28,6 +31,9 @@ def main():
             fps = sorted(set(re.findall(r"^VERIF-DETAIL property=\S+ fingerprint=(\S+)", r.stdout, re.M)))
             entry[chk] = {"exit": r.returncode, "reported": r.returncode == 1, "fingerprints": fps[:6],
                           "wall_s": round(time.time() - t, 1)}
+            if sid in NEUTRALISED:
+                entry[chk]["neutralised_by_fix"] = NEUTRALISED[sid]
+                entry[chk]["expected"] = "silent"
             print("%-5s vs %s: exit=%d %s" % (sid, chk, r.returncode, ",".join(fps[:3])), flush=True)
         res[sid] = entry
         json.dump(res, open(out_path, "w"), indent=1, sort_keys=True)
